@@ -63,6 +63,9 @@ CallsOf(i) ==
   ELSE IF Family = "nav" THEN
      {[op |-> "nav", uri |-> <<>>, segs |-> s, query |-> <<>>, via |-> via, seed |-> Len(s), foreign |-> <<"foo", "node">>] :
          s \in StringsOf(i), via \in {"string", "uri", "fields_shuffled", "query_shuffled", "getwith", "path"}}
+     \* the same string under every other type that accepts it (forced by a uri): navigation must depend on the type
+     \cup UNION {{[op |-> "nav", uri |-> <<Templates[j].name>>, segs |-> s, query |-> <<>>, via |-> "string", seed |-> Len(s), foreign |-> <<"foo", "node">>] :
+                    j \in AllTypesOf(s) \ {MinOf(AllTypesOf(s))}} : s \in {x \in Strings(i) : Cardinality(AllTypesOf(x)) > 1}}
      \* typed Sids whose unrestricted keys hold the EMPTY value (a query cannot carry an empty value, a path cannot hold an
      \* empty component: those two constructors are left out)
      \cup {[op |-> "nav", uri |-> <<>>, segs |-> s, query |-> <<>>, via |-> via, seed |-> Len(s), foreign |-> <<"foo", "node">>] :
@@ -77,10 +80,14 @@ CallsOf(i) ==
      LET ty(s, u) == IF u = 0 \/ AllTypesOf(s) = {} THEN <<>> ELSE <<Templates[MaxOf(AllTypesOf(s))].name>> IN
      {[op |-> "eqlaws", a |-> [op |-> "sid", uri |-> ty(s1, u1), segs |-> s1, query |-> <<>>],
                         b |-> [op |-> "sid", uri |-> ty(s2, u2), segs |-> s2, query |-> <<>>]] :
-         s1 \in StringsOf(i), s2 \in AllStrings \cup Junk, u1 \in {0, 1}, u2 \in {0, 1}}
+         s1 \in StringsOf(i), s2 \in (IF Symbols = {} /\ NConcrete = 1 THEN AllStrings ELSE Strings(i)) \cup Junk, u1 \in {0, 1}, u2 \in {0, 1}}
      \cup {[op |-> "eqlaws", a |-> [op |-> "sid", uri |-> <<>>, segs |-> s1, query |-> <<>>],
                              b |-> [op |-> "sid", uri |-> <<>>, segs |-> s2, query |-> <<>>]] :
          s1 \in OpenNamed(i), s2 \in OpenNamed(i)}
+     \* Sids that keep an unapplied query in their string: same type and fields as the plain Sid, another uri
+     \cup {[op |-> "eqlaws", a |-> [op |-> "sid", uri |-> <<>>, segs |-> s1, query |-> q1],
+                             b |-> [op |-> "sid", uri |-> <<>>, segs |-> s1, query |-> q2]] :
+         s1 \in {FirstString(i)}, q1 \in {<<>>, << <<"foo", "bar">> >>}, q2 \in {<< <<"foo", "bar">> >>, << <<"foo", "baz">> >>, << <<LastKey(i), "zz">> >>}}
 Init == \E i \in TIdx : call = [op |-> "seed", t |-> i]
 Next == call.op = "seed" /\ \E c \in CallsOf(call.t) : (c.op = "getwith" /\ c.mode = "kv" => Len(c.kw) = 1) /\ call' = c
 Spec == Init /\ [][Next]_vars
